@@ -461,6 +461,48 @@ impl Divan {
     }
 }
 
+#[cfg(feature = "verif_hooks")]
+impl Divan {
+    /// The run-time configuration as resolved from builder calls, command
+    /// line and environment, for the verification harness.
+    #[doc(hidden)]
+    pub fn verif_dump(&self) -> String {
+        let action = match self.action {
+            Action::Bench => "bench",
+            Action::Test => "test",
+            Action::List => "list",
+            Action::ListTerse => "terse",
+        };
+        let timer = match self.timer {
+            TimerKind::Os => "os",
+            TimerKind::Tsc => "tsc",
+        };
+        let attr = match self.sorting_attr {
+            SortingAttr::Kind => "kind",
+            SortingAttr::Name => "name",
+            SortingAttr::Location => "location",
+        };
+        let ign = match self.run_ignored {
+            RunIgnored::No => "no",
+            RunIgnored::Yes => "inc",
+            RunIgnored::Only => "only",
+        };
+        let bytes = match self.bytes_format {
+            BytesFormat::Decimal => "decimal",
+            BytesFormat::Binary => "binary",
+        };
+        format!(
+            "act={action} timer={timer} sort={attr} rev={} ign={ign} bytes={bytes} opts={}",
+            self.reverse_sort as u8,
+            crate::__verif::pure::overwrite_dump(
+                &self.bench_options,
+                &BenchOptions::default()
+            )
+            .replace(' ', ","),
+        )
+    }
+}
+
 /// Configuration options.
 impl Divan {
     /// Creates an instance with options set by parsing CLI arguments.
